@@ -45,7 +45,7 @@ struct Entry { const char *name; Fn fn; const char *covers; int cost; };    // c
 // ------------------------------------------------------------------------------------------------------------ AEAD
 #define AEAD_ENTRIES(P, KB, NB, AB)                                                                                                              \
     static void aead_##P(Ctx &c) {                                                                                                               \
-        size_t ml = c.len(), al = c.len(300); uint8_t *k = c.in(KB), *n = c.in(NB), *m = c.in(ml), *ad = c.in_or_null(al);                      \
+        size_t ml = c.len(), al = c.chance(4) ? c.len() : c.len(300); uint8_t *k = c.in(KB), *n = c.in(NB), *m = c.in(ml), *ad = c.in_or_null(al);                      \
         uint8_t *ct = c.out(ml + AB); unsigned long long cl = 0;                                                                                 \
         c.rc(crypto_aead_##P##_encrypt(ct, &cl, m, ml, ad, al, nullptr, n, k)); c.rc((long) cl);                                                \
         c.tamper(ct, ml + AB);                                                                                                                   \
@@ -70,7 +70,7 @@ AEAD_ENTRIES(aegis256, 32, 32, 32)
 static void aead_aes256gcm_all(Ctx &c) {
     c.rc(crypto_aead_aes256gcm_is_available());
     if (!crypto_aead_aes256gcm_is_available()) return;
-    size_t ml = c.len(), al = c.len(300); uint8_t *k = c.in(32), *n = c.in(12), *m = c.in(ml), *ad = c.in_or_null(al);
+    size_t ml = c.len(), al = c.chance(3) ? c.len() : c.len(300); uint8_t *k = c.in(32), *n = c.in(12), *m = c.in(ml), *ad = c.in_or_null(al);
     uint8_t *ct = c.out(ml + 16); unsigned long long cl = 0, bl = 0, tl = 0;
     c.rc(crypto_aead_aes256gcm_encrypt(ct, &cl, m, ml, ad, al, nullptr, n, k)); c.rc((long) cl);
     auto *st = c.state<crypto_aead_aes256gcm_state>(); c.rc(crypto_aead_aes256gcm_beforenm(st, k));
